@@ -334,4 +334,4 @@ CONTRACTS += [_mk_jf("TwoLineFastaBuffer"), _mk_jf("FastQBuffer", base_join=True
 # --- writing an unmodified selection hands on the compacted raw text (contract proved for C04)
 from contracts import clone_for as _clone      # noqa: E402
 from contracts import c04 as _c04               # noqa: E402
-CONTRACTS.append(_clone(_c04.make_contiguous, "C03"))
+CONTRACTS += [_clone(_c04.make_contiguous, "C03"), _clone(_c04.cat2_mixed[0], "C03")]
